@@ -61,6 +61,7 @@ def gen_route(r, tier):
     return "sub" if x < (0.01 if tier == "quick" else 0.003) else "lib" if x < 0.5 else "cmd" if x < 0.75 else "cli"
 
 
+@faults.guarded()
 def do_generate(route, out, vendor, cls, addr, size, dp, iu, sv, wd):
     try:
         if route == "lib":
@@ -138,6 +139,7 @@ def case_generate(rec, case):
         rec.violation(mech, text, full)
 
 
+@faults.guarded()
 def do_merge(route, out, addr, size, files, wd):
     try:
         if route == "lib":
